@@ -36,7 +36,7 @@ const strictNS = "http://purl.oclc.org/ooxml/wordprocessingml/main"
 // ---- main part grammar ------------------------------------------------------------------------
 
 var weirdVocab = []string{"p", "r", "t", "tbl", "tr", "tc", "pPr", "rPr", "tblPr", "tblGrid", "gridCol", "tcPr", "trPr", "sectPr",
-	"drawing", "inline", "anchor", "graphic", "graphicData", "pic", "blipFill", "blip", "sdt", "sdtContent", "hyperlink", "ins", "smartTag",
+	"drawing", "inline", "anchor", "graphic", "graphicData", "pic", "blipFill", "blip", "sdt", "sdtContent", "sdtPr", "sdtEndPr", "docPartObj", "placeholder", "docPart", "hyperlink", "ins", "smartTag",
 	"bookmarkStart", "bookmarkEnd", "jc", "b", "sz", "spacing", "ind", "numPr", "ilvl", "numId", "pBdr", "tabs", "tab", "br", "fldChar", "instrText",
 	"gridSpan", "vMerge", "tcW", "pgSz", "pgMar", "headerReference", "body", "document", "unknownX", "AlternateContent", "Choice", "positionH", "align",
 	"wrapTight", "wrapPolygon", "lineTo", "extent", "docPr", "nvPicPr", "cNvPicPr", "picLocks", "spPr", "xfrm", "off", "ext", "stretch"}
@@ -59,8 +59,12 @@ var sensibleKids = map[string][]string{
 	"graphic":     {"graphicData"},
 	"graphicData": {"pic"},
 	"pic":         {"nvPicPr", "blipFill", "spPr"},
-	"sdt":         {"sdtContent"},
-	"sdtContent":  {"p", "tbl"},
+	"sdt":         {"sdtPr", "sdtEndPr", "sdtContent", "sdtContent"},
+	"sdtContent":  {"p", "tbl", "r", "sdt", "bookmarkStart", "bookmarkEnd"},
+	"sdtPr":       {"rPr", "id", "color", "docPartObj", "placeholder"},
+	"sdtEndPr":    {"rPr"},
+	"docPartObj":  {"docPartGallery", "docPartUnique"},
+	"placeholder": {"docPart"},
 	"hyperlink":   {"r"},
 	"numPr":       {"ilvl", "numId"},
 	"tabs":        {"tab"},
@@ -554,7 +558,7 @@ func exerciseDoc(d *document.Document, r *rng) (ps []panicRec, notes []string) {
 }
 
 // counts of the opened body that correspond to the reader's cases
-type bodyCounts struct{ bodyP, bodyTbl, bodySect, bodyBmS, bodyBmE, rows, cells, cellP, cellTbl, runs int }
+type bodyCounts struct{ bodyP, bodyTbl, bodySect, bodyBmS, bodyBmE, bodySdt, sdtRuns, rows, cells, cellP, cellTbl, runs int }
 
 func countTable(t *document.Table, c *bodyCounts) {
 	for ri := range t.Rows {
@@ -576,14 +580,28 @@ func countTable(t *document.Table, c *bodyCounts) {
 
 func countBody(d *document.Document) bodyCounts {
 	var c bodyCounts
-	for _, e := range d.Body.Elements {
+	countElements(d.Body.Elements, &c)
+	return c
+}
+
+// countElements: the body-level elements, and those in the content of structured document tags (the body-level
+// dispatch reads both)
+func countElements(els []interface{}, c *bodyCounts) {
+	for _, e := range els {
 		switch x := e.(type) {
+		case *document.SDT:
+			c.bodySdt++
+			if x.Content != nil {
+				countElements(x.Content.Elements, c)
+			}
+		case document.Run:
+			c.sdtRuns++
 		case *document.Paragraph:
 			c.bodyP++
 			c.runs += len(x.Runs)
 		case *document.Table:
 			c.bodyTbl++
-			countTable(x, &c)
+			countTable(x, c)
 		case *document.SectionProperties:
 			c.bodySect++
 		case *document.BookmarkStart:
@@ -592,7 +610,6 @@ func countBody(d *document.Document) bodyCounts {
 			c.bodyBmE++
 		}
 	}
-	return c
 }
 
 func partHas(data []byte, name, needle string) bool {
@@ -742,8 +759,8 @@ func runC06(cfg *runCfg) error {
 					if e0 == nil {
 						bc := countBody(d0)
 						// (section settings are not counted: a sectPr inside paragraph properties replaces the body's)
-						obs = fmt.Sprintf(`[("parseBodySubElement", "p", %d); ("parseBodySubElement", "tbl", %d); ("parseBodySubElement", "bookmarkStart", %d); ("parseBodySubElement", "bookmarkEnd", %d); ("parseTable", "tr", %d); ("parseTableRow", "tc", %d); ("parseTableCell", "p", %d); ("parseTableCell", "tbl", %d)]`,
-							bc.bodyP, bc.bodyTbl, bc.bodyBmS, bc.bodyBmE, bc.rows, bc.cells, bc.cellP, bc.cellTbl)
+						obs = fmt.Sprintf(`[("parseBodySubElement", "p", %d); ("parseBodySubElement", "tbl", %d); ("parseBodySubElement", "bookmarkStart", %d); ("parseBodySubElement", "bookmarkEnd", %d); ("parseBodySubElement", "sdt", %d); ("parseSDTContent", "r", %d); ("parseTable", "tr", %d); ("parseTableRow", "tc", %d); ("parseTableCell", "p", %d); ("parseTableCell", "tbl", %d)]`,
+							bc.bodyP, bc.bodyTbl, bc.bodyBmS, bc.bodyBmE, bc.bodySdt, bc.sdtRuns, bc.rows, bc.cells, bc.cellP, bc.cellTbl)
 						sv, e1 := d0.ToBytes()
 						if e1 == nil {
 							parts = fmt.Sprintf("[%s; %s; %s]",
